@@ -34,6 +34,8 @@ pub struct Stats {
     pub hits: BTreeMap<&'static str, u64>,
     pub distinct: HashSet<u64>,
     pub nontrivial: HashSet<u64>,
+    /// distinct schedules actually executed (hash of the seam trace / task-pick sequence)
+    pub schedules: HashSet<u64>,
     pub digest: u64,
     pub samples: Vec<serde_json::Value>,
     pub max_refill_ratio_x100: u64,
@@ -63,6 +65,11 @@ impl Stats {
             self.nontrivial.insert(h);
         }
     }
+    pub fn note_schedule(&mut self, h: u64) {
+        if self.schedules.len() < SET_CAP {
+            self.schedules.insert(h);
+        }
+    }
     pub fn merge(&mut self, o: Stats) {
         self.executions += o.executions;
         self.plans += o.plans;
@@ -75,6 +82,7 @@ impl Stats {
         }
         self.distinct.extend(o.distinct);
         self.nontrivial.extend(o.nontrivial);
+        self.schedules.extend(o.schedules);
         // order-independent combination
         self.digest = self.digest.wrapping_add(o.digest);
         self.max_refill_ratio_x100 = self.max_refill_ratio_x100.max(o.max_refill_ratio_x100);
